@@ -282,3 +282,4 @@ def run(chk):
     F.rule_backend_refuses_errors(chk, chk.repo, "C06.9")
     X.rule_sequence_remainder(chk, "C06.10")
     X.rule_error_kind_agreement(chk, "C06.11")
+    X.rule_initial_state_plain(chk, "C06.12")
